@@ -171,3 +171,18 @@ func (s *Server) VerifClearCache() { s.proxy().ClearCache() }
 
 // VerifAccessSet is the handler of POST /control/access/set.
 func (s *Server) VerifAccessSet(w http.ResponseWriter, r *http.Request) { s.handleAccessSet(w, r) }
+
+// VerifProxy returns the server's current proxy instance.
+func (s *Server) VerifProxy() (p *proxy.Proxy) { return s.proxy() }
+
+// VerifHandleVia is VerifHandle for a request received by the proxy instance p
+// (the current one or, for a connection accepted before a reconfiguration, a
+// previous one): the proxy passes itself to both callbacks.
+func (s *Server) VerifHandleVia(p *proxy.Proxy, pctx *proxy.DNSContext) (beforeErr, err error) {
+	beforeErr = s.HandleBefore(p, pctx)
+	if beforeErr != nil {
+		return beforeErr, nil
+	}
+
+	return nil, s.handleDNSRequest(p, pctx)
+}
